@@ -1,6 +1,7 @@
 package vc
 
 import (
+	"runtime"
 	"context"
 	"fmt"
 	"os"
@@ -46,7 +47,17 @@ type solveResult struct {
 	secs    float64
 }
 
+// solverSlots bounds the number of solver processes running at once to the number of cores, however many
+// units and obligations are in flight: an oversubscribed machine turns CPU seconds into wall-clock timeouts.
+var solverSlots = make(chan struct{}, runtime.NumCPU())
+
 func runSolver(ctx context.Context, cfg SolverCfg, file string, timeoutS int) solveResult {
+	select {
+	case solverSlots <- struct{}{}:
+	case <-ctx.Done():
+		return solveResult{"unknown", "cancelled", cfg.Name, 0}
+	}
+	defer func() { <-solverSlots }()
 	args := cfg.Args(timeoutS, file)
 	cctx, cancel := context.WithTimeout(ctx, time.Duration(timeoutS+2)*time.Second)
 	defer cancel()
